@@ -54,7 +54,7 @@ func runGROUP(c *Ctx, r *Result, rule string) int {
 						okv = e
 					}
 				}
-				if okv == nil || !domGuard(mu.Block(), func(cond ssa.Value) (int, bool) { return 0, cond == okv }) {
+				if okv == nil || !domGuard(mu.Block(), func(cond ssa.Value) (int, bool) { return boolEdge(cond, okv, true) }) {
 					bad = "the key is used without testing the ok result of jtypes.AsString (a non-string key must be an error)"
 				}
 			}
@@ -90,8 +90,8 @@ func runGROUP(c *Ctx, r *Result, rule string) int {
 						}
 					}
 				}
-				absent := okv != nil && domGuard(mu.Block(), func(cond ssa.Value) (int, bool) { return 1, cond == okv })
-				present := okv != nil && domGuard(mu.Block(), func(cond ssa.Value) (int, bool) { return 0, cond == okv })
+				absent := okv != nil && domGuard(mu.Block(), func(cond ssa.Value) (int, bool) { return boolEdge(cond, okv, false) })
+				present := okv != nil && domGuard(mu.Block(), func(cond ssa.Value) (int, bool) { return boolEdge(cond, okv, true) })
 				switch {
 				case absent:
 				case present:
@@ -323,4 +323,120 @@ func runKEYS(c *Ctx, r *Result, rule string) int {
 	}
 	r.Add(o3)
 	return n
+}
+
+// ---------------------------------------------------------------------------------------
+// LISTFLOW — successive predicates apply to the survivors of the previous one (C02).
+//
+// In evalPredicate the list a filter is applied to, and the value that is finally normalised
+// and returned, must be the step's own value or the survivor list returned by the previous
+// applyFilter — possibly through arrayify — and nothing else. In particular not an element
+// picked out of such a list: arrayify would treat an array-valued element as the list itself
+// (the literal-index fast path two independent authors wrote).
+
+func runLISTFLOW(c *Ctx, r *Result, rule string) int {
+	f := c.W.Fn("jsonata.evalPredicate")
+	af := c.W.Fn("jsonata.applyFilter")
+	if f == nil || af == nil {
+		r.LoseAnchor("LISTFLOW: jsonata.evalPredicate or jsonata.applyFilter not found")
+		return 0
+	}
+	node := f.Params[0]
+	var listOrigin func(v ssa.Value, seen map[ssa.Value]bool, allowUndef bool) string
+	listOrigin = func(v ssa.Value, seen map[ssa.Value]bool, allowUndef bool) string {
+		if seen[v] {
+			return ""
+		}
+		seen[v] = true
+		switch x := v.(type) {
+		case *ssa.Phi:
+			for _, ed := range x.Edges {
+				if why := listOrigin(ed, seen, allowUndef); why != "" {
+					return why
+				}
+			}
+			return ""
+		case *ssa.Extract:
+			if call, ok := x.Tuple.(*ssa.Call); ok && x.Index == 0 {
+				callee := call.Call.StaticCallee()
+				if callee == af {
+					return ""
+				}
+				if callee != nil && shortFn(callee) == "jsonata.eval" && len(call.Call.Args) > 0 && fieldLoadOf(call.Call.Args[0], node, "Expr") {
+					return ""
+				}
+			}
+		case *ssa.Call:
+			if callee := x.Call.StaticCallee(); callee != nil && (shortFn(callee) == "jsonata.arrayify") && len(x.Call.Args) == 1 {
+				return listOrigin(x.Call.Args[0], seen, allowUndef)
+			}
+		case *ssa.UnOp:
+			if allowUndef && isUndefinedLoad(x) {
+				return ""
+			}
+		}
+		return "it may be " + v.String() + ", which is neither the step's value nor the survivor list of the previous filter"
+	}
+	n := 0
+	ord := 0
+	for _, ins := range instrsIn(f) {
+		call, ok := ins.(*ssa.Call)
+		if !ok || call.Call.StaticCallee() != af {
+			continue
+		}
+		ord++
+		n++
+		o := Obligation{Rule: rule, Key: fmt.Sprintf("evalPredicate:applyFilter-items#%d", ord), Fn: shortFn(f), Pos: c.W.Pos(call.Pos()), Nontrivial: true}
+		if len(call.Call.Args) < 2 {
+			o.Verdict, o.Reason = Finding, "unexpected applyFilter signature"
+		} else if why := listOrigin(call.Call.Args[1], map[ssa.Value]bool{}, false); why != "" {
+			o.Verdict, o.Reason = Finding, "the list handed to applyFilter is not the survivor list: "+why
+		} else {
+			o.Verdict, o.Reason = Discharged, "the filter is applied to arrayify of the step's value or of the previous filter's survivors"
+		}
+		r.Add(o)
+	}
+	rets := 0
+	for _, b := range f.Blocks {
+		ret, ok := b.Instrs[len(b.Instrs)-1].(*ssa.Return)
+		if !ok || len(ret.Results) != 2 || !isSuccessReturn(ret) {
+			continue
+		}
+		rets++
+		n++
+		o := Obligation{Rule: rule, Key: fmt.Sprintf("evalPredicate:result#%d", rets), Fn: shortFn(f), Pos: c.W.Pos(ret.Pos()), Nontrivial: true}
+		v := ret.Results[0]
+		if call, ok := v.(*ssa.Call); ok {
+			if callee := call.Call.StaticCallee(); callee != nil && shortFn(callee) == "jsonata.normalizeArray" && len(call.Call.Args) == 1 {
+				v = call.Call.Args[0]
+			}
+		}
+		if why := listOrigin(v, map[ssa.Value]bool{}, true); why != "" {
+			o.Verdict, o.Reason = Finding, "the value returned is not the (normalised) survivor list: "+why
+		} else {
+			o.Verdict, o.Reason = Discharged, "returns no value, or normalizeArray of the survivors"
+		}
+		r.Add(o)
+	}
+	return n
+}
+
+// boolEdge: the successor of `if cond` on which boolean v has the wanted truth value, when cond
+// is v or !v.
+func boolEdge(cond, v ssa.Value, want bool) (int, bool) {
+	neg := false
+	for depth := 0; depth < 3; depth++ {
+		if cond == v {
+			if want != neg {
+				return 0, true
+			}
+			return 1, true
+		}
+		u, ok := cond.(*ssa.UnOp)
+		if !ok || u.Op != token.NOT {
+			return 0, false
+		}
+		cond, neg = u.X, !neg
+	}
+	return 0, false
 }
